@@ -10,10 +10,11 @@ THEOREMS = ['C13_exists', 'C13_exact', 'C13_confined', 'C13_bounce_line', 'C13_c
 SHRINK_FROM = 3      # keep users/cdb and the domain of a failing case, shrink layout / bounce / local part / tail
 ENGINES = [dict(name='vpop', c_sources=['vpop_h.c'], extract='Extract/Extract_vpop.v', driver='vpop_driver.ml',
                 glue=('glue.ml', 'glue_z.ml'), accepts=lambda c: c.startswith('c1 ') or c.startswith('c2 '))]
-RULE = ('cases = (users/cdb records, domain, domain directory layout, control/vpopbounce, local part, bytes following the local '
+RULE = ('c1 cases = user_exists() on (users/cdb records, domain, domain directory layout, control/vpopbounce, local part, bytes following the local '
         'part in memory); layouts are derived from the local part: each documented form present / absent / present only under a '
         'near-miss name (dots not mapped, prefix cut one byte early or late, prefix reaching into the domain) / failing with an '
         'injected errno; local parts: plain, with dots and dashes, ".", "..", with "/", quoted, lengths 239..257 around NAME_MAX; '
+        'c2 cases (a quarter) = the real addrparse() on RCPT TO:<local@domain> with unquoted local parts in mixed case over the same kind of tree; '
         'non-trivial = accepted, or at least three names were looked up; distinct by case text')
 TRUSTED_BASE = [
     'Coq 8.16.1 kernel (coqc; coqchk in thorough); vm_compute only for facts about the generated constant lists and the non-vacuity example',
@@ -22,7 +23,7 @@ TRUSTED_BASE = [
     'hand-written model coq/Model/Vpop.v tied to vpop.c by the correspondence run (differential testing, bounded by the generator)',
     'file system abstraction: one lookup relative to the domain directory depends only on the name (fs : name -> entry); fs_of_layout (".", ".." are directories, "" is ENOENT, > NAME_MAX is ENAMETOOLONG) is checked against the real kernel by the correspondence run',
     'extraction with ExtrOcamlBasic only; ocaml/glue.ml, glue_z.ml, vpop_driver.ml (case parsing / printing)',
-    'C harness harness/vpop_h.c: #include of vpop.c, getfile.c, cdb.c, control.c, mmap.c; openat()/open() inside vpop.c redirected by macro (logging, errno injection); err_control()/err_control2() return 0; cdb file written by the harness; gcc 12 -O1 ASan+UBSan vs. production build',
+    'C harness harness/vpop_h.c: #include of vpop.c, getfile.c, cdb.c, control.c, mmap.c, dns_helpers.c, addrsyntax.c, addrparse.c; tarpit()/net_writen()/netnwrite() replaced by recorders; openat()/open() inside vpop.c redirected by macro (logging, errno injection); err_control()/err_control2() return 0; cdb file written by the harness; gcc 12 -O1 ASan+UBSan vs. production build',
 ]
 ASSUMPTIONS = [
     'the local part and the domain contain no NUL (both come from strlen-delimited strings in addrparse)',
@@ -30,6 +31,7 @@ ASSUMPTIONS = [
     'a fresh struct userconf per call (smtp_rcpt calls userconf_init before addrparse)',
     'lib/cdb.c is exercised (real cdb files) but not modelled: the model takes the record list; hash collisions and malformed cdb files are outside the theorem',
     'read() on .qmail-default returns min(2*strlen(vpopbounce), size) bytes in one call',
+    'C13_reply: the address is one addrsyntax() accepts as full address (result 3) and its domain is in rcpthosts; addrsyntax()/finddomain() themselves belong to C14/C16 and are only exercised here (unquoted local parts)',
 ]
 
 ERRNOS = [13, 5, 12, 23, 24, 40, 2, 20, 21, 36, 1, 116]
@@ -259,7 +261,7 @@ LEVEL_TEXT = ('Machine-checked Coq theorems over an executable model of user_exi
               'for every function from names to directory entries, every vpopbounce setting and every local part: the result is positive only if '
               'one of the five documented forms exists (1 / 4 / 2 by form), 0 only if none does, negative only if a lookup failed for another '
               'reason than non-existence; every name opened relative to the domain directory is a single component other than "." and "..", and '
-              'the user directory handle is an entry of the domain directory.  Literals, flags, return codes and errno classes are regenerated '
+              'the user directory handle is an entry of the domain directory; addrparse() answers 0 with "550 5.1.1 ..." and accepts anything positive.  Literals, flags, return codes and errno classes are regenerated '
               'from vpop.c on every run; the model is tied to the C by a differential run on real directory trees under ASan.')
 LEVEL_NOTE = ('Trusted: Coq kernel, translator regexes, extraction (ExtrOcamlBasic), harness, generator quality of the correspondence run, the '
               'name->entry abstraction of the kernel. lib/cdb.c and the mapping of the result to "550 5.1.1" in addrparse.c are exercised / read, not modelled.')
